@@ -398,16 +398,66 @@ def extract():
     kinds = re.findall(r"Message::([A-Za-z]+)", rm.group(1))
     rest = arm_txt[rm.end():]
     skipped = re.findall(r"Message::([A-Za-z]+)\s*\{\s*\.\.\s*\}\s*=>\s*\{\s*\}", rest)
+    # arms that hand the tool input to the JSON traversal (and do nothing else)
+    json_kinds = re.findall(r"Message::([A-Za-z]+)\s*\{\s*input\s*,\s*\.\.\s*\}\s*=>\s*\{\s*total_redactions\s*\+=\s*"
+                            r"redact_secrets_in_json\(\s*input\s*\)\s*;\s*\}", rest)
+    jshape = json_shape(sraw)
     tr = blank_noncode(open(os.path.join(C.REPO, "src", "authorship", "transcript.rs"), encoding="utf-8").read())
     em2 = re.search(r"pub\s+enum\s+Message\s*\{", tr)
     if not em2: raise ExtractError("transcript.rs: enum Message not found")
     eb2 = tr[em2.end() - 1: match_brace(tr, em2.end() - 1) + 1]
     variants = re.findall(r"\n\s{4}([A-Z][A-Za-z]+)\s*\{", eb2)
-    if sorted(kinds + skipped) != sorted(variants):
-        raise ExtractError(f"redact_secrets_from_prompts arms {kinds}+{skipped} do not cover Message variants {variants}")
+    if sorted(kinds + json_kinds + skipped) != sorted(variants):
+        raise ExtractError(f"redact_secrets_from_prompts arms {kinds}+{json_kinds}+{skipped} do not cover Message variants {variants}")
 
     return {"rows": rows, "policy": policy, "shape": shape, "consts": consts, "extra": extra, "stars": stars,
-            "kinds": kinds, "skipped": skipped, "tainted": sorted(tainted), "skipped_ambiguous": sorted(skipped_ambiguous)}
+            "kinds": kinds, "skipped": skipped, "json_kinds": json_kinds, "json_shape": jshape, "tainted": sorted(tainted), "skipped_ambiguous": sorted(skipped_ambiguous)}
+
+
+JSON_SHAPE_FIELDS = ("redactsLeaves", "redactsKeys", "recursesArrays", "recursesObjects", "scalarsUntouched", "sortedMap")
+
+
+def json_shape(sraw):
+    """control-flow / data-flow facts of secrets.rs:redact_secrets_in_json (all False when the function does not exist):
+    string leaves are replaced by redact_secrets_in_text's result; every array element and every object value is
+    traversed; every object key goes through redact_secrets_in_text and the entry is re-inserted under the result, the
+    rebuilt map replaces the old one; Null/Bool/Number do nothing; exactly these four arms, no early return;
+    serde_json's Map is the sorted one (no `preserve_order` feature)."""
+    shape = {k: False for k in JSON_SHAPE_FIELDS}
+    m = re.search(r"pub\s+fn\s+redact_secrets_in_json\s*\(\s*value\s*:\s*&mut\s+serde_json::Value\s*\)\s*->\s*usize\s*\{(.*?)\n\}", sraw, re.S)
+    if not m:
+        return shape
+    flat = re.sub(r"\s+", " ", blank_noncode(m.group(1))).replace("serde_json::Value::", "Value::").strip()
+    mm = re.fullmatch(r"match value \{ (.*) \}", flat)
+    if not mm or "return" in flat:
+        return shape
+    body = mm.group(1)
+    four_arms = len(re.findall(r"Value::(?:String|Array|Object)\(\w+\) =>|Value::Null \| Value::Bool\(_\) \| Value::Number\(_\) =>", body)) == 4 \
+        and len(re.findall(r"Value::\w+(?:\([^)]*\))?(?: \| Value::\w+(?:\([^)]*\))?)* =>", body)) == 4 and "_ =>" not in body
+    if not four_arms:
+        return shape
+    shape["redactsLeaves"] = bool(re.search(
+        r"Value::String\((\w+)\) => \{ let \((\w+), (\w+)\) = redact_secrets_in_text\(\1\); if \3 > 0 \{ \*\1 = \2; \} \3 \}", body))
+    shape["recursesArrays"] = bool(re.search(r"Value::Array\((\w+)\) => \1\.iter_mut\(\)\.map\(redact_secrets_in_json\)\.sum\(\),", body))
+    om = re.search(r"Value::Object\((\w+)\) => \{ let mut total = 0; let mut (\w+) = serde_json::Map::new\(\); "
+                   r"for \((\w+), mut (\w+)\) in std::mem::take\(\1\) \{ (.*?) \} \*\1 = \2; total \}", body)
+    if om:
+        _, newmap, key, item, loop = om.groups()
+        stmts = [x.strip() for x in loop.split(";") if x.strip()]
+        rec = f"total += redact_secrets_in_json(&mut {item})"
+        km = re.search(r"let \((\w+), (\w+)\) = redact_secrets_in_text\(&" + key + r"\)", loop)
+        ins_plain = f"{newmap}.insert({key}, {item})"
+        shape["recursesObjects"] = rec in stmts and stmts[-1].startswith(f"{newmap}.insert(") and len(stmts) in (2, 5)
+        if km:
+            shape["redactsKeys"] = (stmts == [rec, km.group(0), f"total += {km.group(2)}", f"{newmap}.insert({km.group(1)}, {item})"]
+                                    or stmts == [km.group(0), f"total += {km.group(2)}", rec, f"{newmap}.insert({km.group(1)}, {item})"])
+            shape["recursesObjects"] = shape["recursesObjects"] or (rec in stmts and shape["redactsKeys"])
+        elif stmts == [rec, ins_plain]:
+            shape["recursesObjects"] = True
+    shape["scalarsUntouched"] = bool(re.search(r"Value::Null \| Value::Bool\(_\) \| Value::Number\(_\) => 0,?$", body))
+    cargo = open(os.path.join(C.REPO, "Cargo.toml"), encoding="utf-8").read()
+    shape["sortedMap"] = "preserve_order" not in cargo
+    return shape
 
 
 def stmt_of(block, pos):
@@ -588,6 +638,10 @@ def render(x):
     L.append("/-- `Message` variants whose text `redact_secrets_from_prompts` rewrites / leaves alone -/")
     L.append("def redactedKinds : List Str := [" + ", ".join(lean_chars(k) for k in x["kinds"]) + "]")
     L.append("def skippedKinds : List Str := [" + ", ".join(lean_chars(k) for k in x["skipped"]) + "]")
+    L.append("/-- `Message` variants whose `input` goes through `redact_secrets_in_json` -/")
+    L.append("def jsonKinds : List Str := [" + ", ".join(lean_chars(k) for k in x["json_kinds"]) + "]")
+    L.append("/-- what `redact_secrets_in_json` does per arm (all false: no such function) -/")
+    L.append("def jsonShape : JsonShape :=\n  { " + ", ".join(f"{k} := {b(x['json_shape'][k])}" for k in JSON_SHAPE_FIELDS) + " }")
     L.append("\nend GitAi.Extracted.StorageMode\n")
     return "\n".join(L)
 
@@ -607,7 +661,7 @@ if __name__ == "__main__":
     for r in x["rows"]:
         print(f"{r['file']}:{r['name']}: target={r['target']} reads_wl={r['reads_wl']} filters={r['filters']} calls={r['calls']} serializes={r['serializes']}")
     print("shape", x["shape"])
-    print("policy", x["policy"], "consts", x["consts"], "extra", x["extra"], "stars", x["stars"], "kinds", x["kinds"], "skipped", x["skipped"])
+    print("policy", x["policy"], "consts", x["consts"], "extra", x["extra"], "stars", x["stars"], "kinds", x["kinds"], "skipped", x["skipped"], "json_kinds", x["json_kinds"], "json_shape", x["json_shape"])
     print("tainted:", x["tainted"])
     print("not followed (ambiguous/generic names):", x["skipped_ambiguous"])
     print("written" if changed else "unchanged", OUT)
